@@ -391,9 +391,25 @@ def bit_packing_fold(c, b, nm, wr, fold):
     fc = q.sem(b, fold.args[2])
     okb = fc.kind == 'agg' and 'closure' in fc.extra
     detail = ''
+    own_test = False
     if okb:
         cb = P.get(facts_norm(fc.extra['closure']))
         xs = q.exits(cb) if cb is not None else []
+        # without a filter() in front, the closure itself may leave the accumulator alone for a false bit:
+        # |acc, (pos, bit)| if *bit { acc | (1 << pos) } else { acc }
+        keep = [x for x in xs if x['kind'] == 'copy' and x['sem'].kind == 'place' and x['sem'].local == 2 and not x['sem'].proj]
+        own_test = False
+        if cb is not None and flt is None and len(xs) == 2 and len(keep) == 1:
+            setx = [x for x in xs if x is not keep[0]][0]
+            bit_true = []
+            for i_ in cb.switches():
+                info_ = cb.switch_info(i_)
+                if info_['kind'] == 'bool' and info_['cond'][0] == 'place' and info_['cond'][1] == 3 and [p for p in info_['cond'][2] if p != 'deref'] == ['field:1:']:
+                    t_ = cb.blocks[i_]['term']
+                    bit_true += [e for e in [('e', i_, str(v_)) for v_, _ in t_['vals']] + [('e', i_, 'otherwise')] if cb.edge_bool(e) is True]
+            own_test = bool(bit_true) and q.dominated_by_any(cb, bit_true, setx['node']) and not q.dominated_by_any(cb, bit_true, keep[0]['node'])
+            if own_test:
+                xs = [setx]
         okb = cb is not None and len(xs) == 1 and not cb.cycles()
         if okb:
             x = xs[0]
@@ -413,7 +429,9 @@ def bit_packing_fold(c, b, nm, wr, fold):
     c.ob('%s/bit-set' % nm, okb, 'the fold closure returns `acc | (1 << position)` with the enumerate index as position (LSB first)', detail, fold.loc())
     # only set bits contribute: the filter closure returns the bit itself
     okf = flt is not None
-    if okf:
+    if flt is None and okb and own_test:
+        okf = True          # the fold closure tests the bit itself
+    elif okf:
         pc = q.sem(b, flt.args[1])
         okf = pc.kind == 'agg' and 'closure' in pc.extra
         if okf:
